@@ -9,17 +9,29 @@ OPS = ['q', 'Q', 'cm', 'BT', 'ET', 'Tf', 'Tj', 'TJ', "'", '"', 'T*', 'Td', 'TD',
 ALPHA = 'abcdefghijklmnopqrstuvwxyzABCDEFGHIJKLMNOPQRSTUVWXYZ*\'"'
 
 
+KEYWORDS = ('true', 'false', 'null')
+# operators that merely BEGIN with a keyword of the operand grammar or with BI: in the domain since the repair of
+# C14-keyword-operator (93a8a25: keywords are whole tokens)
+KW_PREFIXED = ['nullify', 'nulls', 'null*', "null'", 'trueType', 'truefalse', 'true"', 'falsey', 'falsenull', 'BIx', 'BIBI', 'BI*',
+               'nullnull', 'n', 't', 'f', 'nul', 'tru', 'fals', 'B', 'ID', 'EI', 'R', 'obj', 'stream', 'endobj']
+
+
 def roperator(rng, zero_operands):
+    """an operator of the domain: over the parser's alphabet, not one of the keywords null / true / false (those are
+    operands), and not a lone BI (the inline-image operator)"""
     while True:
-        if rng.random() < 0.6:
+        r = rng.random()
+        if r < 0.55:
             op = rng.choice(OPS)
             if not all(c in ALPHA for c in op):
                 continue   # e.g. d0 is not in the parser's alphabet
+        elif r < 0.65:
+            op = rng.choice(KW_PREFIXED + ['BI'])
         else:
             op = ''.join(rng.choice(ALPHA) for _ in range(rng.randint(1, 5)))
-        if any(op.startswith(p) for p in ('true', 'false', 'null')):
+        if op in KEYWORDS:
             continue
-        if zero_operands and op.startswith('BI'):
+        if zero_operands and op == 'BI':
             continue
         return op
 
@@ -33,16 +45,9 @@ def deep_operand(rng, k):
 
 
 def gen_known(rng, reals):
-    """operations of the two open known classes (see classify)"""
+    """operations of the open known class C14-deep-nesting (see classify)"""
     g = ObjGen(rng, reals, allow_ref=False)
-    if rng.random() < 0.6:
-        n = rng.choice([0, 0, 1, 2])
-        op = rng.choice(['null', 'true', 'false']) + ''.join(rng.choice(ALPHA) for _ in range(rng.randint(0, 3)))
-        if n == 0 and rng.random() < 0.4:
-            op = 'BI' + ''.join(rng.choice(ALPHA) for _ in range(rng.randint(0, 2)))
-        ops = [L('op', xb(op), *[g.obj(rng.choice([0, 1, 2])) for _ in range(n)])]
-    else:
-        ops = [L('op', xb(roperator(rng, False)), deep_operand(rng, rng.choice([101, 102, 120])))]
+    ops = [L('op', xb(roperator(rng, False)), deep_operand(rng, rng.choice([101, 102, 120])))]
     if rng.random() < 0.5:
         ops.insert(0, L('op', xb('q')))
     return g.finish(L('enc', L('ops', *ops), 'wf'))
@@ -59,8 +64,8 @@ def gen_enc(rng, reals, wf):
         if wf:
             op = roperator(rng, n == 0)
         else:
-            op = rng.choice(['BI', 'BIx', 'truex', 'nullify', 'falsey', 'R', 'obj', 'stream', 'n', 'f']) if rng.random() < 0.5 \
-                else roperator(rng, n == 0)
+            # outside the domain: the keywords themselves as operator text, a lone BI
+            op = rng.choice(['BI', 'null', 'true', 'false', 'BI', 'null']) if rng.random() < 0.5 else roperator(rng, n == 0)
         ops.append(L('op', xb(op), *[g.obj(rng.choice([0, 1, 2, 3])) for _ in range(n)]))
     return g.finish(L('enc', L('ops', *ops), 'wf' if wf else 'any'))
 
@@ -90,7 +95,7 @@ def inline_image(rng, valid=True):
     if not valid and rng.random() < 0.2:
         data = data[:max(0, len(data) - 1)]
     sep = rng.choice([' ', '\n', ' \n', '\r\n'])
-    txt = 'BI' + sep + sep.join('/%s %s' % kv for kv in keys) + sep + 'ID' + rng.choice([' ', '\n'])
+    txt = 'BI' + sep + sep.join('/%s %s' % kv for kv in keys) + sep + 'ID' + rng.choice([' ', '\n', '\r\n', '\t', '\r'])
     return txt.encode() + data + rng.choice([b' ', b'\n', b'']) + b'EI' + rng.choice([b' ', b'\n', b''])
 
 
@@ -113,15 +118,16 @@ def image_geometry(rng, ragged=True):
 
 
 def image_data(rng, n):
-    """image samples: arbitrary bytes, with EI / white space / delimiters inside; the first byte is not content white space
-    (the parser skips white space after ID: notes/C14.md, domain of C14_rt)"""
+    """image samples: arbitrary bytes, with EI / white space / delimiters inside; every third image BEGINS with white-space
+    bytes (read back exactly since aee7de5: one white-space character is taken after ID)"""
     alpha = [0x45, 0x49, 0x20, 0x0a, 0x0d, 0x09, 0x00, 0xff, 0x28, 0x29, 0x41, 0x51, 0x80, 0x3e]
     d = bytearray(rng.choice(alpha) if rng.random() < 0.7 else rng.getrandbits(8) for _ in range(n))
     if n >= 4 and rng.random() < 0.3:
         i = rng.randrange(n - 3)
         d[i:i + 4] = b' EI '
-    if d and d[0] in (0x20, 0x09, 0x0d, 0x0a):
-        d[0] = rng.choice([0x45, 0x00, 0xff, 0x41])
+    if d and rng.random() < 0.34:
+        lead = rng.choice([b' ', b'\n', b'\r\n', b'\t', b'  ', b'\r', b' \n ', b'\n\n'])[:n]
+        d[:len(lead)] = lead
     return bytes(d)
 
 
@@ -315,8 +321,6 @@ def known_class_of(line):
             continue
         name = bytes.fromhex(items[1][1:])
         operands = items[2:]
-        if name.startswith((b'null', b'true', b'false')) or (not operands and name.startswith(b'BI')):
-            return 'C14-keyword-operator'
         if any(sx_nest(x) > 100 for x in operands):
             return 'C14-deep-nesting'
     return None
